@@ -119,7 +119,7 @@ def install_pair(cert_cfg, mode):
         dns = [i["dns"] for i in cert_cfg["identifiers"] if "dns" in i]
         ips = [i["ip"] for i in cert_cfg["identifiers"] if "ip" in i]
         leaf = vc.must("make_leaf", issuer_cert=ca["cert_pem"], issuer_key=ca["key_pem"], key_type=kt, dns=dns, ips=ips,
-                       not_after_s=-3600 if mode != "fresh" else 80 * 86400)
+                       not_after_s={"fresh": 80 * 86400, "due20": 20 * 86400}.get(mode, -3600))
         key_pem = leaf["key_pem"]
         if mode == "badkey":
             open(base + ".pk.pem", "w").write("this is not a key\n")
@@ -149,6 +149,20 @@ def prestate_specs(tag, kinds=("badkey", "emptykey", "truncatedkey", "othertype"
             sp = prepare(dict(tag="%s/k%02d" % (tag, len(specs)), certs=[c], attempts=2,
                               meta={"family": "files present before a fault-free attempt", "pre": pre, "kp_reuse": reuse}))
             sp["steps"] = [("call", install_pair(sp["certs"][0], pre)), ("run", {})]
+            specs.append(sp)
+    return specs
+
+
+def shorter_lived_specs(tag):
+    """A pair is installed whose certificate is due but still has 20 days to live; the CA's new certificates live 7 days (a short-lived
+    profile, or a notAfter capped by the issuer's): the new pair replaces the old one all the same."""
+    specs = []
+    for reuse in (False, True):
+        for life in (7 * 86400, 20 * 86400 - 7200, 90 * 86400):
+            c = simple_cert("short-%d-%d" % (reuse, life // 86400), ids=[{"dns": "short.example.org", "challenge": "http-01"}], kp_reuse=reuse)
+            sp = prepare(dict(tag="%s/l%02d" % (tag, len(specs)), certs=[c], attempts=1, endpoints={"A": {"ca": {"cert_lifetime_s": life}}},
+                              meta={"family": "new certificate ends before the installed one", "installed_days_left": 20, "new_lifetime_days": life // 86400, "kp_reuse": reuse}))
+            sp["steps"] = [("call", install_pair(sp["certs"][0], "due20")), ("run", {})]
             specs.append(sp)
     return specs
 
